@@ -54,12 +54,26 @@ def _write_file(file_path, string):
 
 
 def write_files(rendered):
-    """ Writes [(path, content)]; refuses before the first byte is written when one of the files cannot be written. """
-    for file_path, _ in rendered:
-        if os.path.isdir(file_path) or not os.access(file_path if os.path.exists(file_path) else os.path.dirname(file_path) or os.curdir, os.W_OK):
-            raise IOError("%s cannot be written" % file_path)
-    for file_path, file_content in rendered:
-        _write_file(file_path, file_content)
+    """
+    Writes [(path, content)]. Every text is encoded and every file is opened for writing (created when it is not there)
+    before the first byte is written: a name that is too long, a directory or a dangling link in the way, a text that
+    cannot be encoded end the run with nothing written.
+    """
+    encoded = [(file_path, file_content.encode("utf-8")) for file_path, file_content in rendered]
+    created = []
+    try:
+        for file_path, _ in encoded:
+            existed = os.path.lexists(file_path)
+            os.close(os.open(file_path, os.O_WRONLY | os.O_CREAT, 0o666))
+            if not existed:
+                created.append(file_path)
+    except EnvironmentError:
+        for file_path in created:
+            os.remove(file_path)
+        raise
+    for file_path, data in encoded:
+        with open(file_path, "wb") as f:
+            f.write(data)
 
 
 def _make_path(output_dir, base_name, extension):
